@@ -23,8 +23,18 @@ Transcribed from (snapshot ef0888e + fix commits):
                      (`Cfg.alertLeak`/`Cfg.hookLock` = true give the code before the repairs, for the
                      counterexample theorems)
   * http_post.go     doPost synchronously, then forward          (kind `post`)
-  * udf.go           stopUDF = udf.Abort: the reader goroutine stops reading its input edge; ErrAborted from the
-                     child edge only ends the FORWARDING goroutine (`fwdDead`), the node keeps running (kind `udf`)
+  * udf.go           stopUDF = udf.Abort: the reader goroutine stops reading its input edge; ErrAborted from a
+                     child edge makes the node fail like every other node since the repair of finding
+                     udf-above-failed-node-blocks-stop (the forwarding goroutine tells the writing goroutine to stop,
+                     discards the rest of the UDF's output, runUDF closes the UDF and returns the error; the model fails
+                     the node at once, the real node when its writing goroutine next looks: at the next message or at
+                     the end of its input). `Cfg.udfFwdOrphan` = true gives the code before: only the FORWARDING
+                     goroutine ended (`fwdDead`), the node kept running (kind `udf`). runUDF joins its forwarding
+                     goroutine on every return path (repair of finding failed-udf-forwarder-not-joined): the failing
+                     node `fail K` (a UDF whose process dies after K messages) is ONE process here, which is what the
+                     repaired code amounts to - the K-th message is in the child edge before the node returns; the
+                     code before the repair (the process dies while the forwarding goroutine still holds a message,
+                     the node returns, the child edge is closed under that goroutine) has no counterpart in this model
   * kapacitor_loopback.go  Point → TaskMaster.WriteKapacitorPoint → the SAME write_points edge    (kind `loop`)
   * barrier.go       idleBarrier / periodicBarrier: timer goroutines per group, stopped and joined by the deferred
                      stopBarrierEmitter of runF; with delete(TRUE) emitBarrier collects a DeleteGroup message into
@@ -106,6 +116,7 @@ structure Env where
   alertLeak : Bool       -- a failed alert node returns without CloseTopic (code before repair d61e6a5)
   barrierGuard : Bool    -- the barrier timers use Edge.CollectUnlessClosed (repair e30c0fb)
   influxEarlyAbort : Bool -- influxDBOut flushes+aborts its write buffer in stop() (code before repair 4fb4805)
+  udfFwdOrphan : Bool    -- ErrAborted from a child edge only ends the forwarding goroutine of a UDF node (code before the repair)
   tmLockFree : Bool      -- tm.mu is neither held for writing nor for reading
   ingestSpace : Bool     -- the write_points edge has a free slot
   writesClosed : Bool    -- TaskMaster.writesClosed
@@ -196,10 +207,13 @@ def nodeStep (env : Env) (a : NAct) (nd : Nd) (child : Option Nd) : Option NRes 
     | .influx _, _ => none
     | .loop, _ => none
     | .udf, some c =>
-      -- UDFNode: only the forwarding goroutine sees ErrAborted; it returns, the node itself keeps running until
-      -- its input ends or the UDF is aborted, and nothing reads the UDF's output any more
-      if !nd.done ∧ nd.hand = 1 ∧ !nd.failed ∧ !nd.fwdDead ∧ c.inAborted then
-        some ⟨{ nd with hand := 0, dropped := nd.dropped + 1, fwdDead := true }, child, false⟩ else none
+      if env.udfFwdOrphan then
+        -- UDFNode before the repair: only the forwarding goroutine sees ErrAborted; it returns, the node itself keeps
+        -- running until its input ends or the UDF is aborted, and nothing reads the UDF's output any more
+        if !nd.done ∧ nd.hand = 1 ∧ !nd.failed ∧ !nd.fwdDead ∧ c.inAborted then
+          some ⟨{ nd with hand := 0, dropped := nd.dropped + 1, fwdDead := true }, child, false⟩ else none
+      -- repaired: the node stops feeding the UDF, closes it and returns the forwarding error, like every other node
+      else if !nd.done ∧ nd.hand = 1 ∧ !nd.failed ∧ c.inAborted then some ⟨{ nd with hand := 0, dropped := nd.dropped + 1, failed := true }, child, false⟩ else none
     | _, some c =>
       if !nd.done ∧ nd.hand = 1 ∧ !nd.failed ∧ c.inAborted then some ⟨{ nd with hand := 0, dropped := nd.dropped + 1, failed := true }, child, false⟩ else none
     | _, none => none
@@ -278,6 +292,8 @@ structure Cfg where
   barrierGuard : Bool := true  -- barrier timers guard their send into the input edge (false = code before repair e30c0fb)
   influxEarlyAbort : Bool := false -- influxDBOut.stop() = flush()+abort() (true = code before repair 4fb4805; since then the
                                    -- deferred stopBuffer of runOut does it when the input has been consumed)
+  udfFwdOrphan : Bool := false  -- a UDF node whose child edge was aborted only loses its forwarding goroutine (true = code
+                                -- before the repair of finding udf-above-failed-node-blocks-stop)
   deriving DecidableEq, Repr, Inhabited
 
 structure State where
@@ -326,7 +342,7 @@ def Ph.wantsLock : Ph → Bool
 def afterWait (n i : Nat) : Ph := if i + 1 < n then .stopF (i + 1) else .wgWait
 
 def env (cfg : Cfg) (s : State) : Env :=
-  { cap := cfg.cap, hookLock := cfg.hookLock, alertLeak := cfg.alertLeak, barrierGuard := cfg.barrierGuard, influxEarlyAbort := cfg.influxEarlyAbort, tmLockFree := !s.lockHeld ∧ !s.forkRL,
+  { cap := cfg.cap, hookLock := cfg.hookLock, alertLeak := cfg.alertLeak, barrierGuard := cfg.barrierGuard, influxEarlyAbort := cfg.influxEarlyAbort, udfFwdOrphan := cfg.udfFwdOrphan, tmLockFree := !s.lockHeld ∧ !s.forkRL,
     ingestSpace := s.ingest + s.ingestL < cfg.cap, writesClosed := s.ingestClosed }
 
 /-- The stopping goroutine. -/
